@@ -14,15 +14,16 @@ import (
 
 // Step is one step of a scenario
 type Step struct {
-	Kind   string // set rollback connect disconnect restart-empty replace-conn dev-fault crash settle
-	Ops    []refmodel.Op
-	Sync   bool
-	NoWait bool   // do not wait for the reply before the next step
-	RbMode string // latest | latest-change | random | nonexistent | index
-	RbArg  int
-	Target string
-	Codes  []codes.Code
-	CrashK int // crash before the k-th effect counted from this step on
+	Kind     string // set rollback connect disconnect restart-empty replace-conn dev-fault crash settle
+	Ops      []refmodel.Op
+	Sync     bool
+	NoWait   bool   // do not wait for the reply before the next step
+	RbMode   string // latest | latest-change | random | nonexistent | index
+	RbArg    int
+	Target   string
+	Codes    []codes.Code
+	CrashK   int  // crash before the k-th effect counted from this step on
+	CrashRPC bool // ... counted in individual Atomix write RPCs instead of decorated calls
 }
 
 func (s Step) String() string {
@@ -45,6 +46,9 @@ func (s Step) String() string {
 	case "dev-fault":
 		return fmt.Sprintf("dev-fault(%s,%v)", s.Target, s.Codes)
 	case "crash":
+		if s.CrashRPC {
+			return fmt.Sprintf("crash(before Atomix write +%d)", s.CrashK)
+		}
 		return fmt.Sprintf("crash(before effect +%d)", s.CrashK)
 	}
 	return s.Kind + "(" + s.Target + ")"
@@ -65,6 +69,7 @@ type Profile struct {
 	PSync          int  // % of Sets that are synchronous
 	PStartOffline  int  // % chance that a target is offline at the start
 	PDevFault      int  // % chance of a transient device fault burst after a step
+	PForeign       int  // % of environment actions that add / remove a CONTROLS relation of another onos-config node
 	PCrash         int  // % chance that the scenario contains one crash
 	PSlowPlugin    int  // % of model-plugin validations that stall for 5..40 ms (one target's validation much slower than another's)
 	PStoreFault    int  // per-mille probability that a controller's store call fails with a transient error
@@ -188,7 +193,11 @@ func GenScenario(r *fw.Rng, p *Profile, s *refmodel.Schema) []Step {
 	sets := 0
 	for i := 0; i < n; i++ {
 		if i == crashAt {
-			steps = append(steps, Step{Kind: "crash", CrashK: 1 + r.Intn(25)})
+			if r.Chance(1, 2) {
+				steps = append(steps, Step{Kind: "crash", CrashK: 1 + r.Intn(25)})
+			} else {
+				steps = append(steps, Step{Kind: "crash", CrashK: 1 + r.Intn(60), CrashRPC: true})
+			}
 		}
 		if sets > 0 && r.Chance(p.PRollback, 100) {
 			mode := "latest"
@@ -216,6 +225,9 @@ func GenScenario(r *fw.Rng, p *Profile, s *refmodel.Schema) []Step {
 		if r.Chance(p.PEnv, 100) {
 			t := p.Targets[r.Intn(len(p.Targets))]
 			kind := []string{"connect", "disconnect", "restart-empty", "replace-conn"}[r.Intn(4)]
+			if p.PForeign > 0 && r.Chance(p.PForeign, 100) {
+				kind = "foreign-relation"
+			}
 			steps = append(steps, Step{Kind: kind, Target: t})
 		}
 	}
